@@ -296,11 +296,11 @@ func (m *Machine) binop(op token.Token, x, y Val, t types.Type) Val {
 		}
 	case Iface:
 		b := y.(Iface)
-		eq := ifaceEq(a, b)
+		eq := m.ifaceEqSym(a, b)
 		if op == token.EQL {
-			return CB(eq)
+			return eq
 		}
-		return CB(!eq)
+		return Not(eq)
 	case Ptr:
 		b := y.(Ptr)
 		eq := a.C == b.C && a.BA == b.BA
@@ -356,6 +356,34 @@ func (m *Machine) binop(op token.Token, x, y Val, t types.Type) Val {
 	}
 	m.incon(fmt.Sprintf("binop %s on %T", op, x))
 	return nil
+}
+
+// ifaceEqSym: interface equality with symbolic payloads (strings, integers, booleans)
+func (m *Machine) ifaceEqSym(a, b Iface) Bool {
+	if a.T == nil || b.T == nil {
+		return CB(a.T == nil && b.T == nil)
+	}
+	if !types.Identical(a.T, b.T) {
+		return CB(false)
+	}
+	switch av := a.V.(type) {
+	case Str:
+		if bv, ok := b.V.(Str); ok {
+			return m.strEq(av, bv)
+		}
+	case Int:
+		if bv, ok := b.V.(Int); ok && av.W == bv.W {
+			return m.intBin(token.EQL, av, bv, false).(Bool)
+		}
+	case Bool:
+		if bv, ok := b.V.(Bool); ok {
+			if av.IsC() && bv.IsC() {
+				return CB(av.C == bv.C)
+			}
+			return Bool{S: "(= " + av.T() + " " + bv.T() + ")"}
+		}
+	}
+	return CB(ifaceEq(a, b))
 }
 
 func ifaceEq(a, b Iface) bool {
